@@ -9,6 +9,8 @@
 //	                               child creation/closing on a plain scope, a shared child, an isolated child and an
 //	                               isolated grandchild; prints one `hist …` line per context and round (decided by
 //	                               the Lean monitor), `FAIL …` lines for clauses decided here, and a `stress …` summary
+//	scopesig pub <rounds>          publication-order oracle (pub.go): waiters on Done() and pollers of IsDone() must find
+//	                               the error of a scope that was ended by an error; isolated descendants end killed
 //
 // Every call into goatcore runs under recover; a panic is a counted result.
 package main
@@ -1122,7 +1124,7 @@ func main() {
 	verifhook.Set(hook)
 	release.Store(make(chan struct{}))
 	if len(os.Args) < 2 {
-		fmt.Fprintln(os.Stderr, "usage: scopesig drive | gen <n> | stress <rounds> <maxG>")
+		fmt.Fprintln(os.Stderr, "usage: scopesig drive | gen <n> | facts | stress <rounds> <maxG> | pub <rounds>")
 		os.Exit(2)
 	}
 	switch os.Args[1] {
@@ -1136,6 +1138,12 @@ func main() {
 		gen(n)
 	case "facts":
 		facts()
+	case "pub":
+		rounds := 1000
+		if len(os.Args) > 2 {
+			rounds, _ = strconv.Atoi(os.Args[2])
+		}
+		pub(rounds)
 	case "stress":
 		rounds, maxG := 1000, 64
 		if len(os.Args) > 2 {
